@@ -69,12 +69,17 @@ def obs(x):
     if isinstance(x, MeasurementOutcomeDistribution):
         return ("dist", list(x.distribution_dict.items()))
     if isinstance(x, Wavefunction):
-        return ("wf", [complex(a) for a in np.ravel(np.asarray(x.amplitudes, dtype=complex))])
+        amps = x.amplitudes
+        if getattr(x, "free_symbols", None):
+            return ("wf", tuple(np.shape(amps)), [str(a) for a in np.ravel(np.asarray(amps, dtype=object))])
+        return ("wf", tuple(np.shape(amps)), [complex(a) for a in np.ravel(np.asarray(amps, dtype=complex))])
     if isinstance(x, ExpectationValues):
         return ("ev", obs(x.values), obs(x.correlations), obs(x.estimator_covariances))
     if isinstance(x, Parities):
         return ("par", obs(x.values), obs(x.correlations))
     if isinstance(x, np.ndarray):
+        if x.dtype == object:  # arrays of sympy expressions (probabilities of a symbolic wavefunction)
+            return ("arr", x.shape, [str(v) for v in np.ravel(x)])
         return ("arr", x.shape, [complex(v) if np.iscomplexobj(x) else float(v) for v in np.ravel(x)])
     if isinstance(x, sympy.MatrixBase):
         return ("mat", x.shape, [str(v) for v in x])
@@ -325,6 +330,14 @@ def machine(on_end, expired):
                 v = rs.normal(size=8) + 1j * rs.normal(size=8)
                 v = v / np.linalg.norm(v)
                 self._add("wf", Wavefunction(v.copy()))
+                # wavefunctions that hold a column: built from a sympy matrix, or obtained by binding a symbolic one
+                sa = sympy.Symbol("a")
+                self._add("wf", Wavefunction(sympy.Matrix([complex(z) for z in v])))
+                self._add("wf", Wavefunction([sa, 0.5, 0.5j, 0, 0, 0, 0, 0]).bind({sa: (0.5 ** 0.5)}))
+                self._add("wf", Wavefunction([sa, 0.5, 0.5j, 0, 0, 0, 0, 0]))
+                col = np.asarray(v[::-1], dtype=complex).reshape(8, 1).copy()
+                self._add("vec", col)
+                self._add("wf", Wavefunction(col))
                 self._add("vec", v.copy())
                 r = rs.normal(size=8)
                 self._add("vec", r / np.linalg.norm(r))                      # real float64 array
